@@ -95,6 +95,11 @@ func main() {
 					m.Add(p, nil)
 				}
 				before := m.ActiveStates(nil)
+				if m.IsErr() || m.Err() != nil {
+					// the machine rejected the schema (e.g. a Require-Remove conflict): outside the family
+					cancel()
+					continue
+				}
 				called := am.S{mu.st}
 				switch mu.kind {
 				case "add":
@@ -105,6 +110,10 @@ func main() {
 					m.Set(called, nil)
 				}
 				after := m.ActiveStates(nil)
+				if m.IsErr() || m.Err() != nil {
+					cancel()
+					continue
+				}
 				cancel()
 				total++
 				bad := ""
